@@ -199,6 +199,11 @@ def run_histories(case):
                     k = hist.key_of_sched(S)
                     trace.append((who, op, "solution"))
                     ok = k in rem
+                    if op == "S" and not ok and k in T:
+                        # the statement only asks a repeated solve() for a VALID schedule; whether it may hand out one
+                        # that an earlier request excluded is left open (C12 binds the find_another_* requests only)
+                        acc.count(acc.clauses, "C13.solve_returned_excluded:B")
+                        ok = True
                     acc.count(acc.clauses, f"C13.returned_in_T_minus_E:{'T' if ok else 'F'}")
                     if not ok:
                         acc.violation("C13.returned_outside_T_minus_E",
